@@ -11,6 +11,18 @@ def run(tier, seed, replay=None):
                                       "FajrOffsets": "{0}", "NegOffsets": "FALSE"}, ["UnflaggedIsConventional"])
     leg = tlc_must_fail("PrayerDay", cfg, expect="UnflaggedIsConventional", workers=6, heap="6g")
     rep.add_tlc(leg)
+    # the known findings F2 / F3 are named actions of the trace spec; a recorded fixture (2 F2-shaped and 2 F3-shaped
+    # events of the real code) must be rejected while they are disabled and accepted, every use printed, while enabled
+    fx = os.path.join(VERIF, "fixtures", "c08_known_f2_f3.ndjson")
+    nfx = sum(1 for _ in open(fx))
+    bad0, _, _, _ = validate_trace("PrayerDayTrace", "PrayerDayTrace.cfg", fx, nfx, max_violations=nfx + 1, heap="2g")
+    if len(bad0) != nfx:
+        raise ToolError(f"known-finding fixture: {len(bad0)} of {nfx} events rejected with the findings disabled (all must be)")
+    bad1, _, _, _ = validate_trace("PrayerDayTrace", "PrayerDayTrace.cfg", fx, nfx, heap="2g", env={"KNOWN_F2": "1", "KNOWN_F3": "1"})
+    hits = sum(len(v) for v in validate_trace.known_hits.values())
+    if bad1 or hits != nfx:
+        raise ToolError(f"known-finding fixture: {len(bad1)} rejected / {hits} announced of {nfx} with the findings enabled")
+    rep.extra["known_finding_fixture"] = {"events": nfx, "rejected_when_disabled": len(bad0), "accepted_when_enabled": hits}
     n = 300000 if tier == "thorough" else 15000
     info, events = validate_events(rep, "C08", ["--n", n], "c08", heap="10g" if tier == "thorough" else "6g")
     cells = set()
